@@ -41,7 +41,12 @@ def solve_text(smt2, timeout=10, want_model=True, portfolio=None):
     else:
         text_m = text
     result = {"status": "unknown", "solver": None, "time": 0.0, "model": "", "attempts": attempts}
-    for name, cmd in portfolio or SOLVERS:
+    solvers = list(portfolio or SOLVERS)
+    if portfolio is None and "map_ite_val" in text:
+        # dict-merge combinators are declared functions with a defining axiom each (array `map` needs a declared symbol); the macro
+        # finder substitutes the definitions, which makes satisfiability guards over them decidable
+        solvers.insert(1, ("z3-5.1-macro", ["z3-new", "-in", "smt.macro_finder=true"]))
+    for name, cmd in solvers:
         if name.startswith("cvc5"):
             t = "(set-logic ALL)\n(set-option :produce-models true)\n" + text_m
         else:
